@@ -138,5 +138,13 @@ EndFailed(e) ==
   \cup Chk("C08.written_digest", (b.kind = "gzip" /\ b.wantLen >= 0 /\ rerr = "eof") => (given = b.wantLen /\ e.digest = b.wantDigest))
   \cup Chk("C06.written_digest", (b.kind # "flate" /\ b.wantLen >= 0 /\ rerr = "eof") => (given = b.wantLen /\ e.digest = b.wantDigest))
   \* all members of a group end the same way (C04: schedules, C18: acceleration levels, C13: fresh vs Reset)
-  \cup Chk(b.groupClause, (b.group # "" /\ gout # <<>>) => (gout = <<given, rerr, e.digest>>))
+  \cup LET same  == (b.group # "" /\ gout # <<>>) => (gout = <<given, rerr, e.digest>>)
+           \* known finding F-C04a, characterised here so that nothing else hides behind it: a truncated
+           \* stream, unexpected EOF under both schedules, and at most two bytes fewer or more delivered
+           \* (the Reader builds multi-symbol decoding tables for a final block when enough input is
+           \* pending, and a table entry whose last symbol is cut off is not decoded at all)
+           delta == IF gout # <<>> THEN (IF given >= gout[1] THEN given - gout[1] ELSE gout[1] - given) ELSE 0
+           minor == /\ b.groupClause = "C04.same_outcome" /\ b.truncated /\ gout # <<>>
+                    /\ rerr = "uxeof" /\ gout[2] = "uxeof" /\ delta <= 2
+       IN Chk(IF minor THEN "C04.truncated_tail_by_schedule" ELSE b.groupClause, same)
 =============================================================================
